@@ -232,7 +232,8 @@ def step (line : String) : String :=
   | ["HIST", classes, queries] =>
     match (splitList "|" classes).mapM parseSpec,
           (splitList ";" queries).mapM (fun q => match q.splitOn ":" with
-            | [i, w] => do pure ((← i.toNat?), (← parseWord w))
+            | [i, w] => do pure ((← i.toNat?), (← parseWord w), true)
+            | [i, w, t] => do pure ((← i.toNat?), (← parseWord w), t != "L")
             | _ => none) with
     | some specs, some qs =>
       let spec := fun (i : Nat) => specs.getD i default
